@@ -7,8 +7,10 @@ package c11
 import (
 	"context"
 	"errors"
+	"runtime"
 	"strconv"
 	"sync/atomic"
+	"time"
 
 	"github.com/samsarahq/thunder/batch"
 	"github.com/samsarahq/thunder/graphql"
@@ -66,11 +68,93 @@ func (i ItemS) attr() Attr {
 	return Attr{i.N, i.S, i.F, i.U, i.B, i.W, i.I, i.V, i.G, [3]string{i.T0, i.T1, i.T2}}
 }
 
+// Less common key types the builder accepts: time.Time (sub-second
+// differences, several locations), uint64 (near the maximum), a named string
+// type and a named int32 type.
+type Code string
+type Rank int32
+
+type ItemT struct {
+	Id         time.Time
+	N          int64
+	S          string
+	F          float64
+	U          uint16
+	B          int64
+	W          uint64
+	I          int32
+	V          uint32
+	G          float32
+	T0, T1, T2 string
+}
+
+type ItemU struct {
+	Id         uint64
+	N          int64
+	S          string
+	F          float64
+	U          uint16
+	B          int64
+	W          uint64
+	I          int32
+	V          uint32
+	G          float32
+	T0, T1, T2 string
+}
+
+type ItemC struct {
+	Id         Code
+	N          int64
+	S          string
+	F          float64
+	U          uint16
+	B          int64
+	W          uint64
+	I          int32
+	V          uint32
+	G          float32
+	T0, T1, T2 string
+}
+
+type ItemR struct {
+	Id         Rank
+	N          int64
+	S          string
+	F          float64
+	U          uint16
+	B          int64
+	W          uint64
+	I          int32
+	V          uint32
+	G          float32
+	T0, T1, T2 string
+}
+
+func (i ItemT) attr() Attr {
+	return Attr{i.N, i.S, i.F, i.U, i.B, i.W, i.I, i.V, i.G, [3]string{i.T0, i.T1, i.T2}}
+}
+func (i ItemU) attr() Attr {
+	return Attr{i.N, i.S, i.F, i.U, i.B, i.W, i.I, i.V, i.G, [3]string{i.T0, i.T1, i.T2}}
+}
+func (i ItemC) attr() Attr {
+	return Attr{i.N, i.S, i.F, i.U, i.B, i.W, i.I, i.V, i.G, [3]string{i.T0, i.T1, i.T2}}
+}
+func (i ItemR) attr() Attr {
+	return Attr{i.N, i.S, i.F, i.U, i.B, i.W, i.I, i.V, i.G, [3]string{i.T0, i.T1, i.T2}}
+}
+
+// key is the element's identity as the monitor sees it in node.id of the
+// JSON response (a time.Time is sent as RFC 3339 with nanoseconds).
+func (i ItemT) key() string { return i.Id.Format(time.RFC3339Nano) }
+func (i ItemU) key() string { return strconv.FormatUint(i.Id, 10) }
+func (i ItemC) key() string { return string(i.Id) }
+func (i ItemR) key() string { return strconv.FormatInt(int64(i.Id), 10) }
+
 func (i ItemI) key() string { return strconv.FormatInt(i.Id, 10) }
 func (i ItemS) key() string { return i.Id }
 
 type item interface {
-	ItemI | ItemS
+	ItemI | ItemS | ItemT | ItemU | ItemC | ItemR
 	attr() Attr
 	key() string
 }
@@ -108,6 +192,17 @@ var counterNames = []string{"filter_plain", "filter_expensive", "filter_batch", 
 type caseEnv struct {
 	itemsI []ItemI
 	itemsS []ItemS
+	// list of the connections with the less common key types ([]ItemT, []ItemU, []ItemC or []ItemR)
+	itemsX interface{}
+	// what the NumParallelInvocationsFunc option of every batch filter / sort
+	// field answers (0 = option answers 1)
+	parallel int
+	// elements of the first half of the list: a batch invocation yields the
+	// processor a few times per such element before it returns, so that — if
+	// the nodes are ever split over several concurrent invocations — the
+	// invocations holding later nodes tend to finish first. Read-only while a
+	// query runs.
+	slow map[string]bool
 	// the batch-with-fallback flags: not necessarily constant (see flagSource)
 	filterFlag flagSource
 	sortFlag   flagSource
@@ -184,6 +279,30 @@ func note(ctx context.Context, c int)    { atomic.AddInt64(&envOf(ctx).calls[c],
 
 var errInjected = errors.New("c11: injected filter failure")
 
+// parallelOpt is attached to every batch filter / sort field.
+var parallelOpt = schemabuilder.NumParallelInvocationsFunc(func(ctx context.Context, numNodes int) int {
+	if p := envOf(ctx).parallel; p > 0 {
+		return p
+	}
+	return 1
+})
+
+// dawdle is called by a batch invocation with the number of "slow" elements
+// it was handed. It only influences the order in which concurrent invocations
+// finish; no verdict depends on it.
+func dawdle(ctx context.Context, slowElems int) {
+	if envOf(ctx).parallel <= 1 {
+		return
+	}
+	n := 6 * slowElems
+	if n > 48 {
+		n = 48
+	}
+	for i := 0; i < n; i++ {
+		runtime.Gosched()
+	}
+}
+
 func failFor(ctx context.Context, key string) bool {
 	e := envOf(ctx)
 	return e.failID != "" && e.failID == key
@@ -216,12 +335,17 @@ func filterOpt[T item](name string, idx int, kind implKind) schemabuilder.FieldF
 	batchFn := func(ctx context.Context, its map[batch.Index]*T) (map[batch.Index]string, error) {
 		note(ctx, cFilterBatch)
 		out := make(map[batch.Index]string, len(its))
+		slow := 0
 		for i, it := range its {
 			if envOf(ctx).failBatch && failFor(ctx, (*it).key()) {
 				return nil, errInjected
 			}
+			if envOf(ctx).slow[(*it).key()] {
+				slow++
+			}
 			out[i] = (*it).attr().T[idx]
 		}
+		dawdle(ctx, slow)
 		return out, nil
 	}
 	switch kind {
@@ -230,10 +354,10 @@ func filterOpt[T item](name string, idx int, kind implKind) schemabuilder.FieldF
 	case kExpensive:
 		return schemabuilder.FilterField(name, exp, schemabuilder.Expensive)
 	case kBatch:
-		return schemabuilder.BatchFilterField(name, batchFn)
+		return schemabuilder.BatchFilterField(name, batchFn, parallelOpt)
 	default:
 		return schemabuilder.BatchFilterFieldWithFallback(name, batchFn, fallback,
-			func(ctx context.Context) bool { return envOf(ctx).filterFlag.eval() })
+			func(ctx context.Context) bool { return envOf(ctx).filterFlag.eval() }, parallelOpt)
 	}
 }
 
@@ -255,9 +379,14 @@ func sortOpt[T item, V any](name string, get func(Attr) V, kind implKind) schema
 	batchFn := func(ctx context.Context, its map[batch.Index]T) (map[batch.Index]V, error) {
 		note(ctx, cSortBatch)
 		out := make(map[batch.Index]V, len(its))
+		slow := 0
 		for i, it := range its {
+			if envOf(ctx).slow[it.key()] {
+				slow++
+			}
 			out[i] = get(it.attr())
 		}
+		dawdle(ctx, slow)
 		return out, nil
 	}
 	switch kind {
@@ -266,12 +395,19 @@ func sortOpt[T item, V any](name string, get func(Attr) V, kind implKind) schema
 	case kExpensive:
 		return schemabuilder.SortField(name, exp, schemabuilder.Expensive)
 	case kBatch:
-		return schemabuilder.BatchSortField(name, batchFn)
+		return schemabuilder.BatchSortField(name, batchFn, parallelOpt)
 	default:
 		return schemabuilder.BatchSortFieldWithFallback(name, batchFn, fallback,
-			func(ctx context.Context) bool { return envOf(ctx).sortFlag.eval() })
+			func(ctx context.Context) bool { return envOf(ctx).sortFlag.eval() }, parallelOpt)
 	}
 }
+
+const (
+	keyTime = 1 + iota
+	keyUint64
+	keyCode
+	keyRank
+)
 
 // filterSpec is one registered filter field of a connection.
 type filterSpec struct {
@@ -284,6 +420,7 @@ type filterSpec struct {
 type connSpec struct {
 	name      string
 	stringKey bool
+	keyKind   int // 0 = int64 / string (stringKey); else keyTime ...
 	ptrNodes  bool
 	filters   []filterSpec
 }
@@ -311,6 +448,30 @@ var conns = []connSpec{
 	{name: "pi", ptrNodes: true, filters: []filterSpec{{"t0_plain", 0, kPlain}, {"t1_exp", 1, kExpensive}, {"t2_batch", 2, kBatch}, {"t0_bf", 0, kBatchFallback}}},
 	{name: "vs", stringKey: true, filters: []filterSpec{{"t0_plain", 0, kPlain}, {"t0_exp", 0, kExpensive}, {"t0_batch", 0, kBatch}, {"t0_bf", 0, kBatchFallback}}},
 	{name: "ps", stringKey: true, ptrNodes: true, filters: []filterSpec{{"t1_batch", 1, kBatch}, {"t2_bf", 2, kBatchFallback}}},
+	// less common key types
+	{name: "vt", keyKind: keyTime, filters: []filterSpec{{"t0_plain", 0, kPlain}, {"t1_batch", 1, kBatch}, {"t2_bf", 2, kBatchFallback}}},
+	{name: "pu", keyKind: keyUint64, ptrNodes: true, filters: []filterSpec{{"t0_exp", 0, kExpensive}, {"t1_batch", 1, kBatch}, {"t2_bf", 2, kBatchFallback}}},
+	{name: "vc", keyKind: keyCode, filters: []filterSpec{{"t0_plain", 0, kPlain}, {"t1_batch", 1, kBatch}, {"t2_bf", 2, kBatchFallback}}},
+	{name: "pr", keyKind: keyRank, ptrNodes: true, filters: []filterSpec{{"t0_plain", 0, kPlain}, {"t1_batch", 1, kBatch}, {"t2_bf", 2, kBatchFallback}}},
+}
+
+// valueList / pointerList are the paginated resolvers of the connections with
+// the less common key types.
+func valueList[T item](ctx context.Context) []T {
+	note(ctx, cResolver)
+	l, _ := envOf(ctx).itemsX.([]T)
+	return l
+}
+
+func pointerList[T item](ctx context.Context) []*T {
+	note(ctx, cResolver)
+	src, _ := envOf(ctx).itemsX.([]T)
+	out := make([]*T, len(src))
+	for i := range src {
+		v := src[i]
+		out[i] = &v
+	}
+	return out
 }
 
 func options[T item](c connSpec) []schemabuilder.FieldFuncOption {
@@ -383,5 +544,17 @@ func buildSchema() (*graphql.Schema, error) {
 		}
 		return out
 	}, options[ItemS](conns[3])...)
+	ot := schema.Object("itemT", ItemT{})
+	ot.Key("id")
+	ou := schema.Object("itemU", ItemU{})
+	ou.Key("id")
+	oc := schema.Object("itemC", ItemC{})
+	oc.Key("id")
+	or := schema.Object("itemR", ItemR{})
+	or.Key("id")
+	r.FieldFunc("vt", func(ctx context.Context) []ItemT { return valueList[ItemT](ctx) }, options[ItemT](conns[4])...)
+	r.FieldFunc("pu", func(ctx context.Context) []*ItemU { return pointerList[ItemU](ctx) }, options[ItemU](conns[5])...)
+	r.FieldFunc("vc", func(ctx context.Context) []ItemC { return valueList[ItemC](ctx) }, options[ItemC](conns[6])...)
+	r.FieldFunc("pr", func(ctx context.Context) []*ItemR { return pointerList[ItemR](ctx) }, options[ItemR](conns[7])...)
 	return schema.Build()
 }
